@@ -151,6 +151,40 @@ def aliasing_programs(ctx, flavour, types, regs):
     return plan
 
 
+def tlc_programs(ctx, flavour, types, num, depth):
+    """spec -> impl: programs GENERATED BY TLC from spec/ProgGen.tla (simulation mode over the instruction language of the flavour), one run per
+    element kind; every program is executed for every element type of that kind on fresh seeded operand rows"""
+    import json
+    import shutil
+    rng = ctx.rng
+    plan = []
+    kinds = {}
+    for t, nb, signed in types:
+        k = "float" if t[0] == "f" else ("int" if signed else "uint")
+        kinds.setdefault(k, []).append((t, nb))
+    for kind, ts in sorted(kinds.items()):
+        cfg = os.path.join(ctx.work, "ProgGen_%s_%s.cfg" % (flavour, kind))
+        with open(cfg, "w") as f:
+            f.write('CONSTANTS Flavour = "%s"\n Kind = "%s"\n Depth = %d\n Regs = {0, 1, 2, 3}\n Imms = {0, 1, 3, 7}\nINIT Init\nNEXT Next\nCHECK_DEADLOCK FALSE\n' % (flavour, kind, depth))
+        md = os.path.join(vf.BUILD, "tlc", "proggen_%s_%s_%d" % (flavour, kind, os.getpid()))
+        cmd = vf.tlc_cmd("ProgGen.tla", cfg, md, 1, "2g", extra=("-simulate", "num=%d" % num, "-depth", str(depth + 2), "-seed", str(ctx.seed * 131 + 17)))
+        r = vf.sh(cmd, cwd=vf.SPEC, timeout=900)
+        shutil.rmtree(md, ignore_errors=True)
+        progs = [json.loads(json.loads(ln)[5:]) for ln in r.stdout.splitlines() if ln.startswith('"PROG ')]
+        if not progs:
+            raise vf.InfraError("ProgGen produced no program for %s/%s (rc=%d)\n%s" % (flavour, kind, r.returncode, r.stdout[-1500:]))
+        ctx.cov.setdefault("tlc_generated_programs", {})["%s/%s" % (flavour, kind)] = len(progs)
+        for t, nb in ts:
+            bits = 8 * nb
+            lat = vf.int_lattice(bits) if t[0] in "iu" else vf.float_lattice(bits)
+            L = 64 // nb
+            for pr in progs:
+                rows = [vf.hexrow(vf.pack_lanes([rng.choice(lat) if rng.random() < 0.5 else rng.getrandbits(bits) for _ in range(L)], nb)) for _ in range(3)]
+                body = bytes([0]) + b"".join(bytes([i[0], i[1], i[2], i[3], i[4], i[5] % bits]) for i in pr)
+                plan.append("prog %s %s 0 %s %s %s %s" % (flavour, t, rows[0], rows[1], rows[2], body.hex()))
+    return plan
+
+
 def corrupt(e, rng):
     """binding probe: one bit of the row written by one instruction is flipped (Boolean rows: one lane entry)"""
     r = e.get("r")
@@ -175,7 +209,8 @@ def run(ctx, flavour, types, nprog, nins, tag=None):
     """generate, execute on every architecture, validate with T_Prog (the machine's own registers feed every step)"""
     tag = tag or ("prog_" + flavour)
     plan = lanes.replay_plan(ctx.replay) if ctx.replay else (programs(ctx, flavour, types, nprog, nins)
-                                                               + aliasing_programs(ctx, flavour, types, ctx.q((0, 1), (0, 1, 2))))
+                                                               + aliasing_programs(ctx, flavour, types, ctx.q((0, 1), (0, 1, 2)))
+                                                               + tlc_programs(ctx, flavour, types, ctx.q(12, 120), ctx.q(16, 40)))
     plan = [ln for ln in plan if ln.startswith("prog ")]
     if not plan:
         return
